@@ -16,7 +16,7 @@ the current source WITHOUT these hypotheses. A reverted fix flips a fact and bre
   * `rxLitPrefix → PrefixSound`— regexp literal prefix used as trie-iterator prefix for unanchored regexps,
   * `lutCumulative ∨ ≤ 131072 series` — forward reader's non-cumulative lookup table.
 -/
-import LinVerif.Lemmas.C10Park
+import LinVerif.Lemmas.C10Cache
 import LinVerif.Generated.C10
 
 set_option linter.unusedSimpArgs false
@@ -441,6 +441,67 @@ theorem dictionary_block_partition_independent :
     · rw [blocksFind_flatten, hc]
     · rw [blocksScan_flatten, hc]
 
+/-! ## The bucket cache: exact lookups ‖ Flush -/
+
+/-- **exact_lookup_sees_flush_all_interleavings.** `indexKVStore` with its bucket cache: a coherent
+store whose immutable table `p` is being flushed, ONE exact lookup of any bucket `k` (its snapshot
+`take` and its guarded `addBucketCache`) interleaved in EVERY way with the steps of `Flush` in the
+source order (`flusher.Close()`, then snapshot swap + `immutable = nil` + `Purge()` under one write
+lock: `Generated.C10.cachePurgeAtSwap`). Afterwards every later exact lookup (`exactFind`: memory
+tables, cached bucket, else the snapshot's bucket) finds every value of the flushed batch — no stale
+bucket of the old snapshot survives in the cache. -/
+theorem exact_lookup_sees_flush_all_interleavings (s : KVStore) (hc : Coherent s) (p : DictPart)
+    (himm : s.imm = some p) (k : KeyId) (sched : List PStep)
+    (hs : sched ∈ merges [PStep.l (.take k), PStep.l (.add k)]
+            ((flushOrder Generated.C10.cachePurgeAtSwap).map PStep.f)) :
+    ∀ kid v id, (kid, v, id) ∈ p → ((sched.foldl pstep (s, {})).1.exactFind kid v).isSome = true := by
+  have hgen : Generated.C10.cachePurgeAtSwap = true := by decide
+  rw [hgen] at hs
+  obtain ⟨hco, hi, hsf, _⟩ := flush_lookup_interleavings s hc p himm k sched hs
+  intro kid v id hm
+  rw [exactFind_coherent hco, hi, hsf]
+  cases partFind (sched.foldl pstep (s, {})).1.mtb kid v with
+  | some x => rfl
+  | none =>
+    simp only [optList, Option.getD_none, partFind, List.find?_nil, Option.map_none]
+    exact partFind_bucketOf_isSome (id := id) (by simp [hm])
+
+/-! ## `=` is literal -/
+
+/-- **equals_is_literal.** An equals filter (and each member of an in-list) is answered by the exact
+dictionary lookup: for EVERY byte string `v` — also with a leading and/or trailing `*` — it resolves
+to the ids of exactly the dictionary entries whose value IS `v`; no wildcard is interpreted. (A like
+filter with the same string matches more: see the example below.) -/
+theorem equals_is_literal (F : Flags) (M : Matcher) (d : Dict) (hf : DictFun d.all) (kid : KeyId) (k v : Bytes) :
+    ∃ ids, resolveAtom F M d kid (.eq k v) = .ok ids ∧ ∀ id, id ∈ ids ↔ (kid, v, id) ∈ d.all := by
+  refine ⟨d.findValueL kid v, rfl, ?_⟩
+  intro id
+  exact mem_findValueL hf
+
+/-- on the reference side: `k = v` holds for a series iff it carries exactly the pair `(k, v)` -/
+theorem equals_eval_literal (M : Matcher) (t : Tags) (k v : Bytes) :
+    (Expr.atom (.eq k v)).eval M t = true ↔ (k, v) ∈ t := by
+  simp only [Expr.eval, atom_eval_iff, Atom.key, Atom.holdsOn, beq_iff_eq]
+  constructor
+  · rintro ⟨x, hx, rfl⟩; exact hx
+  · intro h; exact ⟨v, h, rfl⟩
+
+/-! ## Dictionary compaction keeps every key with its id -/
+
+/-- **compaction_preserves_key_id.** `TrieBucket.Write` merges the small tries by iterating each in
+key order and appending `(key, itr.Value())`: the merged bucket — whatever the keys (prefixes of one
+another, any lengths), however they are then cut into blocks of `bs > 0` — holds exactly the
+(key, id) pairs of the merged tries, and an exact lookup in it returns an id some input trie pairs
+with that key. -/
+theorem compaction_preserves_key_id (ts : List (List (Bytes × ValId))) (bs : Nat) (hbs : 0 < bs) :
+    (∀ x, x ∈ (blocksOf bs (mergeTries ts)).flatten ↔ ∃ t ∈ ts, x ∈ t) ∧
+    (∀ key id, (mergeTries ts).find? (fun e => e.1 == key) = some (key, id) → ∃ t ∈ ts, (key, id) ∈ t) := by
+  constructor
+  · intro x
+    rw [blocks_cover bs hbs, mem_mergeTries]
+  · intro key id h
+    exact mem_mergeTries.mp (List.mem_of_find?_eq_some h)
+
 /-! ## The index flush seen from inside -/
 
 /-- the one-step flush of the index stores is the composition of its steps (nobody looking) -/
@@ -585,6 +646,24 @@ theorem tie_trie_blocks :
        "if err != nil", "if err != nil"] ∧
     Generated.C10.trieBlockSizes = ["math.MaxInt16", "math.MaxUint16"] := by decide
 
+/-- `indexKVStore.Flush` purges the bucket cache once, inside the write-locked section after
+`flusher.Close()` (see also `tie_flush_order` for the full event list) -/
+theorem tie_cache_purge : Generated.C10.cachePurgeAtSwap = true := by decide
+
+/-- `FindValuesByExpr`: equals and in go to the exact lookup `findValue`, only like goes to
+`FindValuesByLike`, only regexp to `FindValuesByRegexp` — what `resolveAtom` models -/
+theorem tie_resolve_dispatch :
+    Generated.C10.resolveDispatch =
+      ["*stmt.EqualsExpr -> s.findValue", "*stmt.InExpr -> s.findValue", "*stmt.LikeExpr -> s.FindValuesByLike",
+       "*stmt.RegexExpr -> regexpCompile,s.FindValuesByRegexp"] := by decide
+
+/-- `TrieBucket.Write`: per iterated key, the key and `itr.Value()` of the same iterator position are
+appended together — what `mergeTries` models -/
+theorem tie_trie_merge_pairing :
+    Generated.C10.trieMergePairing =
+      ["itr := kv.tree.NewPrefixIterator(nil)", "keys = append(keys, k)", "ids = append(ids, itr.Value())",
+       "itr.Next()"] := by decide
+
 /-! ## Non-vacuity -/
 
 /-- Go's behaviour on literal patterns with an optional `^`: `^x` matches values starting with `x`
@@ -674,6 +753,17 @@ example :
            (2, [(1, some [49]), (4, some [99])]), (3, [(3, some [50]), (0, some [97])])] ∧
     (run flagsNow spreadOps State.init).fwd.l1.length = 1 ∧ (run flagsNow spreadOps State.init).fwd.l0.length = 1 ∧
     (run flagsNow spreadOps State.init).fwd.imm.isSome = true ∧ (run flagsNow spreadOps State.init).fwd.mtb ≠ [] := by
+  decide
+
+/-- `host = 'a*'` selects only the series whose value is literally `a*`; `host like 'a*'` selects
+every value starting with `a` -/
+def starOps : List Op := [.write mCpu [(kHost, [97, 42])], .write mCpu [(kHost, [97, 98])], .write mCpu [(kHost, [42])]]
+
+example :
+    query flagsNow anchoredMatcher (run flagsNow starOps State.init) mCpu (.atom (.eq kHost [97, 42])) = .ok [0] ∧
+    query flagsNow anchoredMatcher (run flagsNow starOps State.init) mCpu (.atom (.like kHost [97, 42])) = .ok [0, 1] ∧
+    query flagsNow anchoredMatcher (run flagsNow starOps State.init) mCpu (.atom (.eq kHost [42])) = .ok [2] ∧
+    query flagsNow anchoredMatcher (run flagsNow starOps State.init) mCpu (.not (.atom (.eq kHost [42]))) = .ok [0, 1] := by
   decide
 
 /-! ## Witnesses of the repaired defects (flags of the source before the fix commits; each is still
@@ -807,6 +897,26 @@ theorem truncated_block_count_loses_tail :
     let trunc := (List.range (max 1 (p.length / 2))).map (fun i => (p.drop (i * 2)).take 2)
     trunc.flatten = [(0, [97], 10), (0, [98], 11)] ∧ blocksFind trunc 0 [99] = none ∧
     blocksFind (blocksOf 2 p) 0 [99] = some 12 := by decide
+
+/-- **purge-before-commit.** `Flush` purging the bucket cache BEFORE `flusher.Close()` (and not at the
+snapshot swap): a lookup that takes the old snapshot and caches its bucket between the purge and the
+swap leaves a stale bucket behind; after the completed flush the exact lookup of a flushed value
+answers from it and finds nothing. -/
+theorem purge_before_commit_leaves_stale_bucket :
+    let s : KVStore := { imm := some [(0, [97], 5)] }
+    let sched : List PStep := [.f .purge, .l (.take 0), .l (.add 0), .f .close, .f (.swap false)]
+    sched ∈ merges [PStep.l (.take 0), PStep.l (.add 0)] ((flushOrder false).map PStep.f) ∧
+    (sched.foldl pstep (s, {})).1.exactFind 0 [97] = none ∧
+    (sched.foldl pstep (s, {})).1.snapFiles = [[(0, [97], 5)]] := by decide
+
+/-- **level-order pairing.** Taking the ids of a trie in bulk in level order (by key length, as
+`tree.Values()` does) and zipping them with the keys in iteration (lexicographic) order pairs `ab`
+with the id of `b`. -/
+theorem level_order_pairing_permutes :
+    let t : List (Bytes × ValId) := [([97], 1), ([97, 98], 2), ([98], 3)]
+    let levelIds : List ValId := [1, 3, 2]   -- a, b (length 1) then ab (length 2)
+    ((trieIterate t).map (·.1)).zip levelIds = [([97], 1), ([97, 98], 3), ([98], 2)] ∧
+    mergeTries [t] = [([97], 1), ([97, 98], 2), ([98], 3)] := by decide
 
 end Neg
 
